@@ -26,6 +26,9 @@ FAULT_VALUES = {
 }
 
 
+CRASH_TYPES = {"stop": StopIteration, "runtime": RuntimeError, "lookup": KeyError, "arith": ZeroDivisionError}
+
+
 class ClientCtx:
     """Per-client simulation context: history, counters, fault plan."""
 
@@ -42,7 +45,8 @@ class ClientCtx:
         self.fired = {}
         self.probe = None           # ProbeState, set by world when probes are on
         self.in_probe = 0           # >0 while harness probe code evaluates solver functions
-        self.reply_faults = [f for f in faults if f["kind"] in FAULT_VALUES or f["kind"] == "noise"]
+        self.reply_faults = [f for f in faults if f["kind"] in FAULT_VALUES or f["kind"] in ("noise", "crash")]
+        self.crash_exc = None       # the exception object a crashing peer raised (fault kind "crash")
         self.linalg_faults = [f for f in faults if f["kind"] == "linalg"]
         self.linalg_calls = {}
         self.knobs = [f for f in faults if f["kind"] in ("cache_off",)]
@@ -85,6 +89,15 @@ class ClientCtx:
                 continue
             if not self._applies(f, idx, x):
                 continue
+            if f["kind"] == "crash":
+                # the peer dies inside the call: a user function raising at this evaluation (never inside a probe)
+                if self.in_probe or self.crash_exc is not None:
+                    continue
+                exc = CRASH_TYPES[f.get("exc", "runtime")]("peer crash at %s#%d" % (target, idx))
+                self.crash_exc = exc
+                self.fire("crash:" + f.get("exc", "runtime"))
+                self.log({"k": "crash", "target": target if isinstance(target, str) else list(target), "i": idx})
+                raise exc
             if f["kind"] == "noise":
                 value = value + f.get("amp", 1e-9) * _noise_unit(xb, 77)
             else:
